@@ -259,11 +259,12 @@ Print Assumptions C11_pools_exact_nonvacuous.
    older messages (refuted), and the pool reservations (refuted: C11_pools_exact_today_refuted,
    C11_release_ignores_pool_today_refuted). *)
 Theorem C11_converges_today_partial :
-  forall g0 cap g evs d,
+  forall g0 cap g fl evs d,
+  f_stale fl = true ->
   g <> 0%N -> (forall e, In e evs -> s_srg (fst e) = g) -> (N.of_nat (length evs) < n64)%N ->
   let reqs := snd (sender_run [(g, (0%N, new_ring cap))] evs) in
   delivery_runs reqs 0 d (length reqs) ->
-  forall k, aget keyeqb k (rc_store (recv_run defective (mkrecv [] [] g0) d)) =
+  forall k, aget keyeqb k (rc_store (recv_run fl (mkrecv [] [] g0) d)) =
             aget keyeqb k (expected_store (live_run evs)).
 Proof. exact converges_store_today. Qed.
 Print Assumptions C11_converges_today_partial.
